@@ -43,6 +43,8 @@ type Engine struct {
 	immPrefixes []string
 	immProblems []string
 	immChecked  bool
+	refKeys1    map[string]bool
+	refKeys2    map[string]bool
 	privCache   map[*ssa.Function]map[*ssa.Alloc]bool
 	typeInvs    map[string]*typeInvInfo
 	tiProblems  []string
@@ -63,7 +65,7 @@ func loadEngine(repo string) (*Engine, error) {
 	e := &Engine{repo: repo, pkgByName: map[string]*ssa.Package{}, fnByKey: map[string][]*ssa.Function{},
 		tags: map[string]int{}, tagTypes: map[int]types.Type{}, ufuncs: map[string]UFunc{}, maxVC: 400000,
 		fnIDs: map[*ssa.Function]int{}, loopCache: map[*ssa.Function]map[*ssa.BasicBlock]map[*ssa.BasicBlock]bool{},
-		implCache: map[string][]types.Type{}, keyInfo: map[string]keyInfo{}, privCache: map[*ssa.Function]map[*ssa.Alloc]bool{}, reachCache: map[string]bool{}, cbFree: map[*types.Package]bool{}}
+		implCache: map[string][]types.Type{}, keyInfo: map[string]keyInfo{}, refKeys1: map[string]bool{}, refKeys2: map[string]bool{}, privCache: map[*ssa.Function]map[*ssa.Alloc]bool{}, reachCache: map[string]bool{}, cbFree: map[*types.Package]bool{}}
 	for _, p := range pkgs {
 		for _, pe := range p.Errors {
 			e.loadErrs = append(e.loadErrs, pe.Error())
@@ -442,6 +444,7 @@ func (e *Engine) verifyFunc(fn *ssa.Function, con *Contract) *FnCtx {
 		ordinals: map[string]int{}, instrOrd: map[ssa.Instruction]map[string]int{}, assumed: map[string]bool{},
 		unsup: map[string]bool{}, budget: 200000, used: map[string]bool{}, sorts: map[string]string{}, constArrs: map[string]string{},
 		entryVals: map[*ssa.Parameter]Val{}, entryFrees: map[*ssa.FreeVar]Val{}}
+	c.quantHeavy = con != nil && con.Arith2 == "heapwf"
 	c.checked = con != nil && con.Arith == "checked"
 	if fn.Blocks == nil {
 		c.unsup["no body"] = true
@@ -464,7 +467,8 @@ func (e *Engine) verifyFunc(fn *ssa.Function, con *Contract) *FnCtx {
 	s.alloc = c.freshConst("alloc0", sInt)
 	s.assume(app("<", "0", s.alloc))
 	s.alloc0 = s.alloc
-	s.held = "false"
+	s.held = boolLit(con != nil && con.Locked)
+	c.entryHeld = s.held
 	s.ghost["exec_count"] = Val{T: intT, S: "0"}
 	for _, p := range fn.Params {
 		v := s.freshVal(p.Type(), "p_"+p.Name())
@@ -477,6 +481,14 @@ func (e *Engine) verifyFunc(fn *ssa.Function, con *Contract) *FnCtx {
 					x := &EvalCtx{s: s, vars: map[string]Val{pr.Params[0]: v}, pkg: e.pkgByName[info.pkg]}
 					s.assume(x.eval(pr.Body).S)
 				}
+			}
+		}
+	}
+	if fn.Signature.Recv() != nil && len(fn.Params) > 0 {
+		if bi, named, isPtr := e.boxInvFor(fn.Params[0].Type()); bi != nil && fn.Object() != nil && fn.Object().Exported() {
+			if t, ok := s.boxInvTerm(bi, named, isPtr, s.env[fn.Params[0]]); ok {
+				s.assume(t)
+				c.assumed["receiver invariant "+bi.Pred+" of "+bi.Type+" (established wherever a "+bi.Type+" is converted to an interface; not modified afterwards)"] = true
 			}
 		}
 	}
@@ -498,12 +510,48 @@ func (e *Engine) verifyFunc(fn *ssa.Function, con *Contract) *FnCtx {
 		}
 	}
 	s.frees = frees
+	// behavioural subtyping, precondition side: whatever the interface contract demands of callers must be
+	// enough for this implementation
+	if ics := e.ifaceContractsFor(fn); len(ics) > 0 && con != nil && len(con.Requires) > 0 {
+		for _, ic := range ics {
+			st := s.clone()
+			vars := map[string]Val{}
+			for i, n := range ic.Params {
+				if i+1 < len(fn.Params) {
+					vars[n] = c.entryVals[fn.Params[i+1]]
+				}
+			}
+			for _, rq := range ic.Requires {
+				x := &EvalCtx{s: st, vars: vars, pkg: e.pkgByName[strings.SplitN(ic.Key, ".", 2)[0]]}
+				st.assume(x.eval(rq.Expr).S)
+			}
+			for i, rq := range con.Requires {
+				x := &EvalCtx{s: st, vars: c.paramVars(st), pkg: pkgOf(fn)}
+				v := x.eval(rq.Expr)
+				st.obligeNamed(fmt.Sprintf("%s/iface-pre:%s#%d", c.name, ic.Key, i+1), "iface-pre", v.S, "precondition must follow from the interface contract "+ic.Key+": "+rq.Src, true)
+			}
+		}
+	}
 	if con != nil {
 		for _, rq := range con.Requires {
 			x := &EvalCtx{s: s, vars: c.paramVars(s), pkg: pkgOf(fn)}
 			v := x.eval(rq.Expr)
 			c.specErrors(x, rq.Where)
 			s.assume(v.S)
+		}
+	} else {
+		// an implementation without its own contract may rely on the interface contract's preconditions
+		for _, ic := range e.ifaceContractsFor(fn) {
+			vars := map[string]Val{}
+			for i, n := range ic.Params {
+				if i+1 < len(fn.Params) {
+					vars[n] = c.entryVals[fn.Params[i+1]]
+				}
+			}
+			for _, rq := range ic.Requires {
+				x := &EvalCtx{s: s, vars: vars, pkg: e.pkgByName[strings.SplitN(ic.Key, ".", 2)[0]]}
+				s.assume(x.eval(rq.Expr).S)
+			}
 		}
 	}
 	c.collectEntryTerms(s)
@@ -1136,4 +1184,65 @@ func (e *Engine) spawnedUnjoined(fn *ssa.Function) bool {
 		}
 	}
 	return false
+}
+
+// detFn declares (once) the function symbol that stands for result component (i,j) of a deterministic method.
+func (e *Engine) detFn(key string, i, j int, args []Val, resSort string) string {
+	name := fmt.Sprintf("det!%s!%d!%d", sanitize(key), i, j)
+	for _, d := range e.globalDecls {
+		if strings.HasPrefix(d, "(declare-fun "+name+" ") {
+			return name
+		}
+	}
+	var ps []string
+	for _, a := range args {
+		for _, c := range comps(a.T) {
+			ps = append(ps, c.Sort)
+		}
+	}
+	e.globalDecls = append(e.globalDecls, fmt.Sprintf("(declare-fun %s (%s) %s)", name, strings.Join(ps, " "), resSort))
+	return name
+}
+
+// boxInvFor: the boxing invariant declared for (the named type behind) t, if any.
+func (e *Engine) boxInvFor(t types.Type) (*BoxInv, types.Type, bool) {
+	ptr := false
+	if pt, ok := t.(*types.Pointer); ok {
+		t = pt.Elem()
+		ptr = true
+	}
+	n, ok := t.(*types.Named)
+	if !ok || n.Obj().Pkg() == nil {
+		return nil, nil, false
+	}
+	for i := range e.contracts.BoxInvs {
+		bi := &e.contracts.BoxInvs[i]
+		if bi.Type == n.Obj().Name() && bi.Pkg == n.Obj().Pkg().Name() {
+			return bi, n, ptr
+		}
+	}
+	return nil, nil, false
+}
+
+func (s *State) boxInvTerm(bi *BoxInv, named types.Type, isPtr bool, v Val) (string, bool) {
+	p := s.c.eng.contracts.Preds[bi.Pred]
+	if p == nil || len(p.Params) != 1 {
+		return "", false
+	}
+	arg := v
+	if isPtr {
+		a := s.ptrAddr(Val{T: types.NewPointer(named), S: v.S})
+		if a == nil {
+			return "", false
+		}
+		arg = s.pureLoad(a)
+		arg.T = named
+	}
+	x := &EvalCtx{s: s, vars: map[string]Val{p.Params[0]: arg}, pkg: s.c.eng.pkgByName[bi.Pkg]}
+	t := x.eval(p.Body)
+	s.c.specErrors(x, bi.Where)
+	if isPtr {
+		return implies(not(eq(v.S, "0")), t.S), true
+	}
+	return t.S, true
 }
